@@ -2,18 +2,23 @@
 C09 — formatting is idempotent and preserves the program.
 PROPERTY THEOREMS ONLY (lemmas: Proofs/Format.lean; model: Martian/Format.lean).
 
-Proved for all inputs: the call reordering (`topoSort`) is a permutation; under
-the (decidable) hypotheses "closed relation is acyclic and transitive on the
-calls" its result is in dependency order and a fixed point of the loop; the
-loop is the identity on any dependency order; and the string printer/lexer
-round trip `unquoteBytes (quoteString s) = some s` for every valid UTF-8 `s`.
-Not proved: that `closedTable` always yields a transitive relation (evaluated per
-generated graph by the driver, monitored on the real map), and the
-value-expression printer/parser round trip.
+Proved for all inputs: the call reordering (`topoSort`) is a permutation; the
+until-nothing-changes loop of `addNextDeps` (`closedTable`) ends in a fixed
+point of its round within its fuel, and the closed relation is therefore
+transitive on the calls, for every graph (`closedDeps_transitive`); under the
+single (decidable) hypothesis "closed relation is acyclic" (otherwise the Go
+code returns an error) the result of `topoSort` is in dependency order and a
+fixed point of the loop; the loop is the identity on any dependency order; and
+the string printer/lexer round trip `unquoteBytes (quoteString s) = some s`
+for every valid UTF-8 `s`.
+Not proved: the value-expression printer/parser round trip.  (That the model's
+closed table is the map the Go loop builds is tied by correspondence, pair for
+pair, on generated graphs.)
 -/
 import Martian.Format
 import Proofs.Format
 import Proofs.FormatTopo
+import Proofs.FormatClosure
 import Proofs.FormatQuote
 
 namespace Props.C09
@@ -36,39 +41,71 @@ theorem topoSort_stable (d : Dep) (f : Nat) (l : List Nat) (h : sortedFrom d l =
 dependencies. -/
 theorem closedDeps_contains_edges (n : Nat) (edges : List (Nat × Nat)) (a b : Nat)
     (ha : a < n) (hb : b < n) (h : (a, b) ∈ edges) : closedDeps n edges a b = true :=
-  closeTab_mono n n _ a b ha hb (by rw [ofTable_tabulate n _ a b ha hb]; simp [depOfEdges, h])
+  closedDeps_contains_edges' n edges a b ha hb h
+
+/-- **The closure loop terminates in a fixed point.**  `closedTable` runs rounds
+of `addNextDeps` until a round adds nothing, with fuel `n² + 1`; for every
+number of calls and every edge list that fuel is never exhausted: one more
+round leaves the result unchanged. -/
+theorem closedTable_is_fixpoint (n : Nat) (edges : List (Nat × Nat)) :
+    tabulate n (closeOnce n (ofTable (closedTable n edges))) = closedTable n edges :=
+  closedTable_fix n edges
+
+/-- non-vacuity: on a chain of 5 calls the loop really iterates: the first and
+the second round both change the table (paths of length ≤ 2, then ≤ 4), the
+third is the round that adds nothing and ends the loop -/
+example :
+    let e := [(0, 1), (1, 2), (2, 3), (3, 4)]
+    let t0 := tabulate 5 (depOfEdges e)
+    t0 ≠ closeTab 5 1 t0 ∧ closeTab 5 1 t0 ≠ closeTab 5 2 t0 ∧
+    closeTab 5 2 t0 = closeTab 5 3 t0 ∧ closeTab 5 2 t0 = closedTable 5 e := by decide
+
+/-- **The closed relation is transitive** on the calls, for every number of
+calls and every set of direct dependencies (cyclic ones included): what
+`addNextDeps` is there to establish, and what the shift loop needs. -/
+theorem closedDeps_transitive (n : Nat) (edges : List (Nat × Nat)) :
+    transOn (List.range n) (closedDeps n edges) = true :=
+  closedDeps_trans n edges
+
+/-- non-vacuity: on the chain of 5 calls the direct dependencies, and the
+relation after one round, are not transitive; the closed relation holds
+exactly the 10 pairs `a < b` of the chain -/
+example :
+    let e := [(0, 1), (1, 2), (2, 3), (3, 4)]
+    let t0 := tabulate 5 (depOfEdges e)
+    transOn (List.range 5) (ofTable t0) = false ∧
+    transOn (List.range 5) (ofTable (closeTab 5 1 t0)) = false ∧
+    closedDeps 5 e 0 4 = true ∧ closedDeps 5 e 4 0 = false ∧
+    tabulate 5 (closedDeps 5 e) = tabulate 5 (fun a b => decide (a < b)) := by decide
 
 /-- **Respects dependencies.**  When the closed dependency relation has no
-cycle (otherwise the Go code returns an error and leaves the order alone) and
-is transitive on the calls (what `addNextDeps` is there to establish; a
-decidable hypothesis, evaluated by the driver for every generated graph and
-monitored on the real map), no call in the result is followed by a call it
-depends on — with `topoSort_perm`: every call comes after all its
+cycle (otherwise the Go code returns an error and leaves the order alone), no
+call in the result is followed by a call it depends on (transitivity of the
+closed relation, formerly a hypothesis, is proved for every graph:
+`closedDeps_transitive`) — with `topoSort_perm`: every call comes after all its
 dependencies.  The fuel `n² + n + 1` of the model is never exhausted (the loop
 needs at most `2n` iterations). -/
 theorem topoSort_respects_deps (n : Nat) (edges : List (Nat × Nat))
     (hcyc : hasCycle n (closedDeps n edges) = false)
-    (htr : transOn (List.range n) (closedDeps n edges) = true)
     (a b : Nat) (ha : a < n) (hb : b < n) (hab : (a, b) ∈ edges)
     (A B : List Nat) (hl : topoSort n edges = A ++ a :: B) : b ∉ B :=
-  sorted_no_later_dep _ _ A B a b (topoSort_sorted n edges hcyc htr) hl
+  sorted_no_later_dep _ _ A B a b (topoSort_sorted' n edges hcyc) hl
     (closedDeps_contains_edges n edges a b ha hb hab)
 
 /-- the same for transitive dependencies: the result is in dependency order
-for the whole closed relation -/
+for the whole closed relation (no transitivity hypothesis: `closedDeps_transitive`) -/
 theorem topoSort_sorted_closed (n : Nat) (edges : List (Nat × Nat))
-    (hcyc : hasCycle n (closedDeps n edges) = false)
-    (htr : transOn (List.range n) (closedDeps n edges) = true) :
+    (hcyc : hasCycle n (closedDeps n edges) = false) :
     sortedFrom (closedDeps n edges) (topoSort n edges) = true :=
-  topoSort_sorted n edges hcyc htr
+  topoSort_sorted' n edges hcyc
 
 /-- **Idempotent.**  Running the shift loop again on the result, with any
-fuel, returns it unchanged. -/
+fuel, returns it unchanged (for every acyclic graph; transitivity is proved,
+`closedDeps_transitive`). -/
 theorem topoSort_idem (n : Nat) (edges : List (Nat × Nat)) (f : Nat)
-    (hcyc : hasCycle n (closedDeps n edges) = false)
-    (htr : transOn (List.range n) (closedDeps n edges) = true) :
+    (hcyc : hasCycle n (closedDeps n edges) = false) :
     loop (closedDeps n edges) f (topoSort n edges) 0 = topoSort n edges :=
-  topoSort_stable _ f _ (topoSort_sorted n edges hcyc htr)
+  topoSort_stable _ f _ (topoSort_sorted' n edges hcyc)
 
 /-- the general loop statement: any call list, any relation that is transitive
 and irreflexive on it, fuel above twice the length -/
